@@ -257,7 +257,8 @@ def handleC16 (fields : List String) : Verdict :=
               some s!"vertex set {sset.map (fun i => verts.getD i "")}: the formula says {tt_get ttR mask}, but it is {if isClique adj sset then "a clique" else "not a clique"} of size {sset.length} (maximum clique size {best})"
             | none =>
               if solver == "-" then none else
-              let rows := (solver.splitOn ";").filter (· ≠ "")
+              -- `;` alone: no row; a row without names (the empty vertex set) is written EMPTY
+              let rows := ((solver.splitOn ";").filter (· ≠ "")).map (fun s => if s == "EMPTY" then "" else s)
               let want := ((subsetsOf (List.range k)).filter (fun s => isClique adj s && (all || s.length == best))).map
                 (fun s => String.intercalate "." (sortStrings (s.map (fun i => hexOf (verts.getD i "")))))
               -- rows may leave unmentioned vertices out; compare only when every vertex is mentioned
